@@ -220,8 +220,8 @@ def run(ctx):
         ctx.ob('C19.a', f'{co.qual}._qasm_:guards', okg, '' if okg else 'the cx/cy/cz/ch short-cut is not restricted to exponent 1, zero global shift and a single control on |1>', co.mod.rel, cq_.lineno)
 
     # ------------------------------------------------------------------ C19.d
-    ctx.rule('C19.d', 'fallbacks and registers (finite-domain interpretation): the entangling core emitted by QasmTwoQubitGate._decompose_ for KAK '
-             'coefficients (x,y,z) equals exp(i(x XX + y YY + z ZZ)) up to global phase; _generate_cregs declares for every key the width of its widest measurement', floor=2, style='FDX')
+    ctx.rule('C19.d', 'fallbacks and registers (finite-domain interpretation): the sequence emitted by QasmTwoQubitGate._decompose_ for KAK coefficients (x,y,z) and local factors '
+             '(identity and generic SU(2), incl. vanishing interaction) equals after . exp(i(x XX + y YY + z ZZ)) . before up to global phase; _generate_cregs declares for every key the width of its widest measurement', floor=2, style='FDX')
     from . import decomp
     qt = repo.cls('cirq.circuits.qasm_output.QasmTwoQubitGate')
     dfn = qt.methods.get('_decompose_')
@@ -229,16 +229,21 @@ def run(ctx):
         raise AnalysisError('QasmTwoQubitGate._decompose_ vanished')
     XX_, YY_, ZZ_ = np.kron(X, X), np.kron(Y, Y), np.kron(Z, Z)
     bad = None
-    for xyz in ((0.3, 0.2, 0.1), (0.7, 0.1, -0.05), (0.25, 0.25, 0.0), (0.6, 0.0, 0.0), (0.2, -0.15, 0.33)):
-        ident = np.eye(2)
-        kak = {'interaction_coefficients': xyz, 'single_qubit_operations_before': (ident, ident), 'single_qubit_operations_after': (ident, ident)}
+    def _su2(a_, b_, c_):
+        return _rot(Z, a_) @ _rot(Y, b_) @ _rot(Z, c_)
+    LOCALS = {'identity': (np.eye(2), np.eye(2), np.eye(2), np.eye(2)),
+              'generic': (_su2(0.3, 1.1, -0.4), _su2(-0.9, 0.5, 0.2), _su2(1.3, 0.7, 0.6), _su2(0.1, -1.2, 0.8))}
+    for xyz, loc in [((0.3, 0.2, 0.1), 'identity'), ((0.7, 0.1, -0.05), 'identity'), ((0.25, 0.25, 0.0), 'identity'), ((0.6, 0.0, 0.0), 'identity'), ((0.2, -0.15, 0.33), 'identity'),
+                     ((0.3, 0.2, 0.1), 'generic'), ((0.0, 0.0, 0.0), 'generic'), ((1e-12, 0.0, 0.0), 'generic'), ((0.6, 0.0, 0.0), 'generic')]:
+        b0_, b1_, a0_, a1_ = LOCALS[loc]
+        kak = {'interaction_coefficients': xyz, 'single_qubit_operations_before': (b0_, b1_), 'single_qubit_operations_after': (a0_, a1_), 'global_phase': 1}
         self_obj = {'kak': kak}
         attr_hook, call_hook, name_lookup = decomp.make_env_hooks(repo, qt, dfn, self_obj)
 
         def call2(call, it, call_hook=call_hook):
             s_ = ast.unparse(call.func)
             if s_.endswith('from_matrix'):
-                return decomp.GateV(None, kind='identity', n=1)
+                return decomp.GateV(None, kind='matrix', coefficient=np.asarray(it.ev(call.args[0]), dtype=complex), n=1)
             return call_hook(call, it)
         it = decomp.GenInterp({'self': self_obj, 'qubits': (decomp.Q(0), decomp.Q(1))}, call_hook=call2, attr_hook=attr_hook)
         base_ev = it.ev
@@ -278,10 +283,10 @@ def run(ctx):
                 continue
             u = _embed(mtx, [q.idx for q in op.qubits], 2) @ u
         from scipy.linalg import expm
-        want = expm(1j * (xyz[0] * XX_ + xyz[1] * YY_ + xyz[2] * ZZ_))
+        want = np.kron(a0_, a1_) @ expm(1j * (xyz[0] * XX_ + xyz[1] * YY_ + xyz[2] * ZZ_)) @ np.kron(b0_, b1_)
         ov = abs(np.trace(want.conj().T @ u)) / 4
         if abs(ov - 1) > 1e-8:
-            bad = bad or f'for KAK coefficients {xyz} the emitted core is not exp(i(xXX+yYY+zZZ)) (overlap {ov:.4f})'
+            bad = bad or f'for KAK coefficients {xyz} and {loc} local factors the emitted sequence is not after . exp(i(xXX+yYY+zZZ)) . before (overlap {ov:.4f})'
     ctx.ob('C19.d', f'{qt.qual}._decompose_:kak-core', bad is None, bad or '', qt.mod.rel, dfn.lineno)
     qo_ = repo.cls('cirq.circuits.qasm_output.QasmOutput')
     gc = qo_.methods.get('_generate_cregs')
